@@ -156,6 +156,11 @@ func c12Op(g *gen.G, typ byte) drv.Op {
 		case 4:
 			return bin("password")
 		case 5:
+			if t.Bool(1, 3) {
+				w := c12Will(g)
+				w.Props = nil
+				return drv.Op{Kind: "rewill", Will: w}
+			}
 			return drv.Op{Kind: "will", Will: c12Will(g)}
 		case 6:
 			return userprops()
@@ -215,7 +220,9 @@ func c12Op(g *gen.G, typ byte) drv.Op {
 			return userprops()
 		}
 	case ref.Subscribe:
-		switch t.Pick(3, 3, 3, 2) {
+		switch t.Pick(3, 3, 3, 2, 2) {
+		case 4:
+			return drv.Op{Kind: "editfilter", N: uint32(t.Int(8)), B: g.Str(g.Len1()), ID: byte(t.Int(3)) | byte(t.Int(3))<<4}
 		case 0:
 			return u16("packetid")
 		case 1:
